@@ -36,6 +36,9 @@ CONSTANTS
     CallUniverse,   \* call descriptions, see GrpcProxy_MC
     HostOf(_),      \* dsthost value -> the route hosts it matches (documented host matching: letter case and the
                     \* default port do not matter, a route host may be a glob pattern); "" -> {""}
+    SchemeOf(_),    \* backend -> scheme of its target URL: "grpc" (plaintext upstream) or "grpcs" (TLS upstream).  The pool
+                    \* is keyed by the whole target URL: nothing below depends on the scheme, which is the point -- a
+                    \* grpcs:// target in the table is a target like any other (reused, kept by the clean-up).
     BurstUniverse,  \* call descriptions used for bursts of overlapping first calls
     BurstSizes,     \* how many calls overlap in a burst
     MaxCalls, MaxSets, MaxTicks, MaxDowns, MaxBursts,
@@ -124,7 +127,7 @@ Route ==
     /\ cur' = [cur EXCEPT !.pc = "routed", !.be = Best(table, cur.c.host, cur.c.path)]
     /\ UNCHANGED <<table, net, bst, cnt, hist>>
 
-CallRecord == [op |-> "call", call |-> cur'.c, be |-> cur'.be, conn |-> cur'.conn,
+CallRecord == [op |-> "call", call |-> cur'.c, be |-> cur'.be, conn |-> cur'.conn, scheme |-> SchemeOf(cur'.be),
                bgot |-> cur'.bgot, beof |-> cur'.beof, cgot |-> cur'.cgot, ord |-> cur'.ord, tabs |-> cur'.tabs,
                code |-> cur'.code, msg |-> cur'.msg, hdr |-> cur'.hdr, trl |-> cur'.trl, unav |-> cur'.unav]
 
@@ -383,6 +386,7 @@ TypeOK ==
     /\ pool \subseteq Backends /\ stale \subseteq pool /\ live \subseteq pool
     /\ \A b \in Backends : closing[b] \in Nat /\ open[b] \in Nat /\ accepted[b] \in Nat /\ up[b] \in BOOLEAN
     /\ \A b \in live : up[b]
+    /\ \A b \in Backends : SchemeOf(b) \in {"grpc", "grpcs"}
 
 \* order, exactly once, unmodified -- at every moment of a call
 OrderedExactlyOnce ==
